@@ -62,7 +62,8 @@ impl OpCase for Case {
     }
     fn op(&self) -> String {
         match &self.kind {
-            Kind::F(f, op) => format!("{}.{}", f.short(), op.name()),
+            Kind::F(f, op) => format!("{}.{}", f.short(), abbreviate(&format!("{op:?}"))),
+            Kind::B(BOp::ModExp(_, n, _)) => format!("BigModExp(n={n})"),
             Kind::B(op) => op.name(),
         }
     }
@@ -101,6 +102,75 @@ impl OpCase for Case {
             Kind::B(op) => bops::judge_big(op, ins, outs),
         }
     }
+}
+
+/// Canonical operation descriptor for finding keys: the Debug form without spaces, every decimal
+/// constant of more than 6 digits replaced by `K` and every `Some(<number>)` by `Some(n)`.
+fn abbreviate(s: &str) -> String {
+    let mut out = String::new();
+    let mut digits = String::new();
+    for ch in s.chars().chain(std::iter::once(' ')) {
+        if ch.is_ascii_digit() {
+            digits.push(ch);
+            continue;
+        }
+        if !digits.is_empty() {
+            if out.ends_with("Some(") {
+                out.push('n');
+            } else if digits.len() > 6 {
+                out.push('K');
+            } else {
+                out.push_str(&digits);
+            }
+            digits.clear();
+        }
+        if ch != ' ' {
+            out.push(ch);
+        }
+    }
+    out
+}
+
+impl Case {
+    /// Class of the operand tuple, for finding keys. `fine` distinguishes multiples of the limb
+    /// base (whose encoding has an all-ones least significant limb).
+    fn input_class(&self, fine: bool) -> String {
+        if let Kind::B(BOp::ModExp(..)) = &self.kind {
+            let (x, m) = (self.ins[0].u(), self.ins[1].u());
+            let Kind::B(BOp::ModExp(_, n, _)) = &self.kind else { unreachable!() };
+            return (if m.is_zero() {
+                "m=0"
+            } else if *n == 0 && m.is_one() {
+                "m=1"
+            } else if x >= m {
+                "x>=m"
+            } else {
+                "x<m"
+            })
+            .to_string();
+        }
+        let base = match &self.kind {
+            Kind::F(f, _) => pow2(f.spec().log2_base),
+            Kind::B(_) => pow2(BIG_LOG2_BASE),
+        };
+        self.ins
+            .iter()
+            .map(|v| match v {
+                V::U(x) if x.is_zero() => "0".to_string(),
+                V::U(x) if fine && (x % &base).is_zero() => "k*base".to_string(),
+                V::U(_) => "x".to_string(),
+                V::B(b) => format!("{}", *b as u8),
+                _ => "v".to_string(),
+            })
+            .collect::<Vec<_>>()
+            .join(",")
+    }
+}
+
+fn cpu_s() -> f64 {
+    let mut ru: libc::rusage = unsafe { std::mem::zeroed() };
+    unsafe { libc::getrusage(libc::RUSAGE_SELF, &mut ru) };
+    ru.ru_utime.tv_sec as f64 + ru.ru_utime.tv_usec as f64 * 1e-6
 }
 
 // ---------------------------------------------------------------------------------------------
@@ -390,7 +460,8 @@ fn big_ops(tier: Tier) -> Vec<BOp> {
         v.push(AssertEqualToFixed(193, c.clone()));
         v.push(AssertNotEqualToFixed(193, c.clone()));
     }
-    v.extend([IsEqualToFixed(8, pow2(96)), IsNotEqualToFixed(97, bu(1)), AssertEqualToFixed(8, pow2(96))]);
+    // (assert_equal_to_fixed with a constant longer than x is a documented construction-time panic: not a case)
+    v.extend([IsEqualToFixed(8, pow2(96)), IsNotEqualToFixed(97, bu(1))]);
     for n in [1usize, 8, 95, 96, 97, 193] {
         v.push(FromLeBits(n));
     }
@@ -562,22 +633,39 @@ fn selfcheck_big(cx: &mut Ctx) {
 // multi-limb "+m" faults
 // ---------------------------------------------------------------------------------------------
 
-/// Adds the emulated modulus, limb by limb and without carries, to `nb_limbs` advice assignments
-/// `start, start+gap, ..`: turns a limb vector into the second representation of the same residue
-/// whenever no limb overflows.
-fn plus_m_plan(spec: &FieldSpec, idxs: &[u64]) -> Vec<(u64, Fault, Mode)> {
-    let ml = limbs_of(spec, &spec.m);
-    idxs.iter()
-        .zip(ml)
-        .map(|(i, mi)| {
-            let d = mi.to_u64_digits();
-            let mut a = [0u64; 4];
-            for (j, x) in d.iter().enumerate() {
-                a[j] = *x;
-            }
-            (*i, Fault::AddBits(a), Mode::Propagate)
-        })
-        .collect()
+/// The second ("+m") well-formed representation of an assigned input, injected consistently.
+///
+/// `FieldChip::assign` assigns limb i through `assign_less_than_pow2(limb, 64)`, i.e. one
+/// `decompose core` region with 10 advice assignments for a 64-bit limb in the (4 columns, 8 bits)
+/// configuration: the limb itself, its bytes 0..3, the partial result (limb minus the low four
+/// bytes) and its bytes 4..7. A prover who wants to use `(x - 1) + m` instead of `x - 1` changes
+/// these 10 cells of each of the limbs; everything downstream is then computed by the library's own
+/// witness code from the changed limbs (propagate mode). `e_index` is the position of the input
+/// among the field-element inputs (which are assigned first). `None` if `x` has no second
+/// representation.
+fn noncanonical_input_plan(spec: &FieldSpec, e_index: usize, x: &BigUint) -> Option<Vec<(u64, Fault, Mode)>> {
+    assert!(spec.wf_bits.iter().all(|b| *b == 64));
+    let l = (x + &spec.m - 1u32) % &spec.m;
+    let lm = &l + &spec.m;
+    if lm.bits() > spec.wf_total_bits() as u64 {
+        return None;
+    }
+    let per_limb = 10u64;
+    let mut plan = vec![];
+    for (i, limb) in limbs_of(spec, &lm).iter().enumerate() {
+        let v = limb.to_u64_digits().first().copied().unwrap_or(0);
+        let base = (e_index as u64 * spec.nb_limbs as u64 + i as u64) * per_limb;
+        let set = |x: u64| Fault::Set([x, 0, 0, 0]);
+        plan.push((base, set(v), Mode::Propagate));
+        for j in 0..4u64 {
+            plan.push((base + 1 + j, set((v >> (8 * j)) & 0xff), Mode::Propagate));
+        }
+        plan.push((base + 5, set(v & !0xffff_ffffu64), Mode::Propagate));
+        for j in 0..4u64 {
+            plan.push((base + 6 + j, set((v >> (8 * (4 + j))) & 0xff), Mode::Propagate));
+        }
+    }
+    Some(plan)
 }
 
 fn main() {
@@ -587,9 +675,10 @@ fn main() {
     let tier = cx.tier;
     let only = std::env::var("C05_ONLY").ok();
     cx.assume("MockProver (with the trash-argument evaluation added by the C02 fix) is the satisfiability oracle; its agreement with the real verifier is C02's subject");
-    cx.assume("prover freedom is bounded to <= 1 deviation from the honest witness generator (propagate mode), 2 deviations for the smallest operations, consistent lies about exposed values, and the multi-limb '+m' re-representation of a limb vector");
+    cx.assume("prover freedom is bounded to <= 1 deviation from the honest witness generator (propagate mode), 2 deviations for the smallest operations, consistent lies about exposed values, and the consistent '+m' re-representation of assigned inputs");
     cx.assume("a well-formed non-canonical limb vector is an admissible representation of its residue (field_chip.rs documents this); exposures of such vectors are counted, not reported, and the outputs must still be correct for the residue");
 
+    let mut cpu_marks: Vec<(&str, f64)> = vec![];
     // ---- decoder self-checks
     selfcheck_field::<midnight_curves::k256::Fp>(&mut cx, Fld::SecpBase);
     selfcheck_field::<midnight_curves::k256::Fq>(&mut cx, Fld::SecpScalar);
@@ -643,17 +732,70 @@ fn main() {
     }
     cx.extra("fields", json!(specs_json));
 
+    // ---- cases of the non-canonical-input phase: all-field-element-input operations of the
+    // secp256k1 fields x tuples over the values that have a second representation (+ one that has not)
+    let mut pm_cases: Vec<(String, Case)> = vec![];
+    for (fld, depth) in &flds {
+        if *fld == Fld::BlsBase {
+            continue;
+        }
+        let spec = fld.spec();
+        let two: Vec<BigUint> = field_alphabet(&spec, seed, 1).into_iter().map(|(_, v)| v).filter(|v| noncanonical_input_plan(&spec, 0, v).is_some()).collect();
+        let other: BigUint = (&spec.m - 1u32) >> 1;
+        for op in field_ops(&spec, *depth, tier, seed) {
+            let tys = op.in_types();
+            let n_e = tys.iter().take_while(|t| **t == fops::Ty::E).count();
+            if n_e == 0 || tys.iter().skip(n_e).any(|t| *t == fops::Ty::E) {
+                continue;
+            }
+            let mut tuples: Vec<Vec<BigUint>> = vec![];
+            let lim = if tier.is_thorough() { two.len() } else { two.len().min(2) };
+            for d in 0..lim {
+                // all inputs re-representable, and one mixed tuple
+                tuples.push((0..n_e).map(|i| two[(d + i) % two.len()].clone()).collect());
+                tuples.push((0..n_e).map(|_| two[d].clone()).collect());
+                if n_e > 1 {
+                    tuples.push((0..n_e).map(|i| if i == 0 { two[d].clone() } else { other.clone() }).collect());
+                }
+            }
+            if let FOp::Chain(steps, _) = &op {
+                // z equal to the accumulator whenever that value has a second representation too
+                for t in tuples.clone() {
+                    let acc = fops::chain_acc(&spec.m, steps, &t[0], &t[1]);
+                    tuples.push(vec![t[0].clone(), t[1].clone(), acc]);
+                }
+            }
+            tuples.sort();
+            tuples.dedup();
+            for t in tuples {
+                let mut ins: Vec<V> = t.into_iter().map(V::U).collect();
+                for ty in tys.iter().skip(n_e) {
+                    match ty {
+                        fops::Ty::B => ins.push(V::B(true)),
+                        _ => unreachable!(),
+                    }
+                }
+                let c = Case { kind: Kind::F(*fld, op.clone()), ins, cols: 4, mbl: 8 };
+                pm_cases.push((c.key(), c));
+            }
+        }
+    }
+    if let Some(f) = &only {
+        pm_cases.retain(|(k, _)| k.contains(f.as_str()));
+    }
+
     // ---- k per (operation, configuration)
     let mut kreq: Vec<(String, Case)> = vec![];
     {
         let mut seen = std::collections::HashSet::new();
-        for (_, c) in &cases {
+        for (_, c) in cases.iter().chain(pm_cases.iter()) {
             if seen.insert(c.kkey()) {
                 kreq.push((c.kkey(), c.clone()));
             }
         }
     }
     let ks: Mutex<HashMap<String, u32>> = Mutex::new(HashMap::new());
+    cpu_marks.push(("min-k", cpu_s()));
     cx.run_cases("min-k", &kreq, |c| {
         let mut o = CaseOut::batch();
         match vgad::min_k(c) {
@@ -672,31 +814,209 @@ fn main() {
     let kof = |c: &Case| ks.get(&c.kkey()).copied();
     let cases: Vec<(String, Case)> = cases.into_iter().filter(|(_, c)| kof(c).is_some()).collect();
 
-    // ---- phase 1: honest runs, instance binding, exposed-value lies
+    // ---- phase 1a: honest run of every case (0 deviations)
     struct Hon {
         n: u64,
         op_range: (u64, u64),
+        exposed: usize,
     }
     let hon: Mutex<HashMap<String, Hon>> = Mutex::new(HashMap::new());
     let t_hon = std::time::Instant::now();
+    cpu_marks.push(("honest", cpu_s()));
     cx.run_cases("honest", &cases, |c| {
         let mut out = CaseOut::batch();
         let k = kof(c).unwrap();
         fops::NONCANON_SEEN.with(|x| x.set(0));
-        let rep = vgad::explore_honest(c, k, &mut out);
+        let run = vgad::run_once(c, k, vec![], false);
         let (s, e) = marks();
-        if rep.outcome == Outcome::Sat && c.expect_sat() {
-            hon.lock().unwrap().insert(c.key(), Hon { n: rep.n_assign, op_range: (s, e) });
+        out.eval(&format!("honest:{}", run.outcome.name()), true);
+        let detail = || json!({"case": c.key(), "inputs": c.ins.iter().map(|v| match v { V::U(x) => hex_full(x), o => o.show() }).collect::<Vec<_>>()});
+        match (&run.outcome, c.expect_sat()) {
+            (Outcome::Sat, true) => match c.judge(&run.ins, &run.outs) {
+                Judgement::Holds => {
+                    hon.lock().unwrap().insert(c.key(), Hon { n: run.n_assign, op_range: (s, e), exposed: run.flat.len() });
+                }
+                Judgement::Wrong(w) => out.viol(Viol::new(
+                    format!("{}:[{}]:honest-result-wrong", c.op(), c.input_class(false)),
+                    format!("honest circuit is satisfied but its exposed result contradicts the reference: {w}"),
+                    detail(),
+                )),
+            },
+            (Outcome::Sat, false) => {
+                if let Judgement::Wrong(w) = c.judge(&run.ins, &run.outs) {
+                    out.viol(Viol::new(format!("{}:[{}]:out-of-domain-accepted", c.op(), c.input_class(false)), format!("input outside the documented domain is accepted: {w}"), detail()));
+                }
+            }
+            (o, true) => {
+                let what = match o {
+                    Outcome::Unsat(e) => format!("unsatisfiable: {e}"),
+                    Outcome::SynthErr(e) => format!("synthesis error: {e}"),
+                    Outcome::Panic(e) => format!("panic: {e}"),
+                    Outcome::Sat => unreachable!(),
+                };
+                out.viol(Viol::new(
+                    format!("{}:[{}]:completeness:{}", c.op(), c.input_class(true), o.name()),
+                    format!("honest witness for an admissible input is not accepted - {what}"),
+                    detail(),
+                ));
+            }
+            (_, false) => {}
         }
-        out.counter("advice_assignments", rep.n_assign);
-        out.counter("noncanonical_exposures_accepted", fops::NONCANON_SEEN.with(|x| x.get()));
-        out.sample = Some(json!({"case": c.key(), "k": k, "honest": rep.outcome.name(), "assignments": rep.n_assign, "op_assignment_range": [s, e], "exposed": rep.exposed}));
+        out.counter("advice_assignments", run.n_assign);
+        out.counter("noncanonical_exposures_accepted:honest", fops::NONCANON_SEEN.with(|x| x.get()));
+        out.sample = Some(json!({"case": c.key(), "k": k, "honest": run.outcome.name(), "assignments": run.n_assign, "op_assignment_range": [s, e], "exposed": run.flat.len()}));
         out
     });
     let hon = hon.into_inner().unwrap();
     let hon_s = t_hon.elapsed().as_secs_f64();
 
-    // ---- phase 2: 1-deviation faults in propagate mode
+    // ---- phase 2: non-canonical ("+m") representations of the inputs reach every consumer
+    // (secp256k1 fields, configuration (4, 8)): every non-empty subset of the inputs that have a
+    // second well-formed representation is re-represented, consistently with its range checks.
+    let mut mcases: Vec<(String, (Case, Vec<Vec<usize>>))> = vec![];
+    for (key, c) in &pm_cases {
+        if kof(c).is_none() {
+            continue;
+        }
+        let Kind::F(f, _) = &c.kind else { continue };
+        let spec = f.spec();
+        let cand: Vec<usize> = c
+            .ins
+            .iter()
+            .enumerate()
+            .filter(|(i, v)| matches!(v, V::U(x) if noncanonical_input_plan(&spec, *i, x).is_some()))
+            .map(|(i, _)| i)
+            .collect();
+        let mut subsets = vec![];
+        for mask in 1usize..(1 << cand.len()) {
+            subsets.push(cand.iter().enumerate().filter(|(b, _)| mask >> b & 1 == 1).map(|(_, i)| *i).collect::<Vec<usize>>());
+        }
+        mcases.push((key.clone(), (c.clone(), subsets)));
+    }
+    cpu_marks.push(("plus-m", cpu_s()));
+    cx.run_cases("plus-m", &mcases, |(c, subsets)| {
+        let mut out = CaseOut::batch();
+        let Kind::F(f, _) = &c.kind else { unreachable!() };
+        let spec = f.spec();
+        let k = kof(c).unwrap();
+        // the canonical run must itself be in order (its defects are reported by the honest phase)
+        let honest = vgad::run_once(c, k, vec![], false);
+        let honest_ok = match (&honest.outcome, c.expect_sat()) {
+            (Outcome::Sat, true) => c.judge(&honest.ins, &honest.outs) == Judgement::Holds,
+            (Outcome::Sat, false) => false,
+            (_, sat) => !sat,
+        };
+        if !honest_ok {
+            out.count("plus-m:skipped-canonical-run-already-fails", 1);
+            return out;
+        }
+        fops::NONCANON_SEEN.with(|x| x.set(0));
+        for subset in subsets {
+            let mut plan = vec![];
+            for i in subset {
+                plan.extend(noncanonical_input_plan(&spec, *i, c.ins[*i].u()).unwrap());
+            }
+            let n_plan = plan.len();
+            let run = vgad::run_once(c, k, plan, false);
+            // the injection itself must have produced well-formed non-canonical inputs
+            let mut injected = run.applied.len() == n_plan;
+            for i in subset {
+                injected &= matches!(run.ins.get(*i).and_then(|raw| decode_field_limbs(&spec, raw)), Some(d) if !d.canonical && d.residue == *c.ins[*i].u());
+            }
+            if !injected {
+                out.eval("plus-m:injection-failed", true);
+                out.viol(Viol::new("harness:plus-m-injection", "the +m re-representation could not be injected (layout of FieldChip::assign changed?)", json!({"case": c.key()})));
+                continue;
+            }
+            out.eval(&format!("plus-m:{}", run.outcome.name()), true);
+            match (&run.outcome, c.expect_sat()) {
+                (Outcome::Sat, _) => match c.judge(&run.ins, &run.outs) {
+                    Judgement::Holds => out.count("plus-m:accepted-correct", 1),
+                    Judgement::Wrong(w) => out.viol(Viol::new(
+                        format!("{}:wrong-on-noncanonical-input", c.op()),
+                        format!("inputs {subset:?} given in their second (+m) well-formed representation: circuit satisfied although {w}"),
+                        json!({"case": c.key(), "noncanonical_inputs": subset}),
+                    )),
+                },
+                (_, true) => {
+                    // the residues are in the domain but this representation is refused: a
+                    // representation-sensitive consumer (documented for assert_equal)
+                    out.count("plus-m:representation-sensitive-reject", 1);
+                    out.counter(&format!("representation_sensitive:{}", c.op()), 1);
+                }
+                (_, false) => out.count("plus-m:rejected-out-of-domain", 1),
+            }
+        }
+        out.counter("noncanonical_exposures_accepted:plus-m", fops::NONCANON_SEEN.with(|x| x.get()));
+        out
+    });
+
+    // ---- phase 3: instance binding and exposed-value lies on selected operand tuples per
+    // operation (these depend on the circuit's wiring, not on the operand values)
+    let mut bcases: Vec<(String, Case)> = vec![];
+    {
+        // cost of a binding case ~ 5 verifications per exposed position: quick takes every operation
+        // with at most 40 exposed positions and one representative per (field, operation name)
+        // of the wider ones; thorough takes up to four tuples of every operation
+        let max_exposed = tier.pick(40usize, 100_000usize);
+        let rep_max_exposed = tier.pick(600usize, 100_000usize);
+        let want: &[usize] = if tier.is_thorough() { &[1, 4, 6, 9] } else { &[4] };
+        let mut per_op: HashMap<String, Vec<(&String, &Case, usize)>> = HashMap::new();
+        let mut order: Vec<String> = vec![];
+        for (key, c) in &cases {
+            let Some(h) = hon.get(key) else { continue };
+            let e = per_op.entry(c.kkey()).or_default();
+            if e.is_empty() {
+                order.push(c.kkey());
+            }
+            e.push((key, c, h.exposed));
+        }
+        let mut wide_seen = std::collections::HashSet::new();
+        let mut variants: HashMap<String, usize> = HashMap::new();
+        for ok in &order {
+            let v = &per_op[ok];
+            if !tier.is_thorough() {
+                let (name, max_variants) = match &v[0].1.kind {
+                    Kind::F(f, op) => (format!("{}.{}", f.short(), op.name()), 1),
+                    Kind::B(op) => (op.name(), 2),
+                };
+                let cnt = variants.entry(name).or_default();
+                *cnt += 1;
+                if *cnt > max_variants {
+                    continue;
+                }
+            }
+            // big circuits (2048-bit modular exponentiation ...) only get the honest run
+            if kof(v[0].1).unwrap() > 12 {
+                continue;
+            }
+            let mut picks: Vec<usize> = want.iter().map(|w| w - 1).filter(|i| *i < v.len()).collect();
+            if picks.is_empty() {
+                picks.push(0);
+            }
+            for p in picks {
+                let (key, c, exposed) = v[p];
+                if exposed > max_exposed {
+                    let name = match &c.kind {
+                        Kind::F(f, op) => format!("{}.{}", f.short(), op.name()),
+                        Kind::B(op) => op.name(),
+                    };
+                    if exposed > rep_max_exposed || !wide_seen.insert(name) {
+                        continue;
+                    }
+                }
+                bcases.push((key.clone(), c.clone()));
+            }
+        }
+    }
+    cpu_marks.push(("binding", cpu_s()));
+    cx.run_cases("binding", &bcases, |c| {
+        let mut out = CaseOut::batch();
+        let _ = vgad::explore_honest(c, kof(c).unwrap(), &mut out);
+        out
+    });
+
+    // ---- phase 4: 1-deviation faults in propagate mode
     let limb_faults = |l: u32| -> Vec<(&'static str, Fault)> { vec![("+base", Fault::AddPow2(l)), ("-base", Fault::SubPow2(l))] };
     let base_faults: Vec<(&'static str, Fault)> = {
         let f = vgad::default_faults(seed);
@@ -706,14 +1026,13 @@ fn main() {
             f.into_iter().filter(|(n, _)| ["+1", "-1", "zero", "random"].contains(n)).collect()
         }
     };
-    // one operand tuple per operation (the first satisfiable one whose operands are not all
-    // trivial); the stride over assignment indices is chosen from the size of the operation
-    let budget_runs: u64 = tier.pick(22_000, 900_000);
+    // Operand tuples: one per operation (two in thorough), taken a few steps down the diagonal so
+    // that the operands are not 0/1/2 (which take the library's shortcuts). Quick sweeps one
+    // variant per (field, operation name) (BigUint: two width variants per operation name).
+    let budget_runs: u64 = tier.pick(12_000, 1_000_000);
     let mut chosen: Vec<(&String, &Case, &Hon)> = vec![];
     {
-        let mut per_op: HashMap<String, usize> = HashMap::new();
         let want = tier.pick(1usize, 2usize);
-        // prefer tuples further down the diagonal (index >= 3: not 0/1/2) when available
         let mut by_op: HashMap<String, Vec<(&String, &Case, &Hon)>> = HashMap::new();
         let mut order: Vec<String> = vec![];
         for (key, c) in &cases {
@@ -725,35 +1044,59 @@ fn main() {
                 e.push((key, c, h));
             }
         }
+        let mut variants: HashMap<String, usize> = HashMap::new();
         for ok in &order {
             let v = &by_op[ok];
-            let picks: Vec<usize> = if v.len() > 4 { vec![4, 1] } else { vec![0, v.len() - 1] };
+            if !tier.is_thorough() {
+                let (name, max_variants) = match &v[0].1.kind {
+                    Kind::F(f, op) => (format!("{}.{}", f.short(), op.name()), 1),
+                    Kind::B(op) => (op.name(), 2),
+                };
+                let cnt = variants.entry(name).or_default();
+                *cnt += 1;
+                if *cnt > max_variants {
+                    continue;
+                }
+            }
+            if kof(v[0].1).unwrap() > 12 {
+                continue;
+            }
+            let picks: Vec<usize> = if v.len() > 4 { vec![4, 1] } else { vec![v.len() - 1, 0] };
+            let mut taken = 0;
             for p in picks {
-                let cnt = per_op.entry(ok.clone()).or_default();
-                if *cnt < want && p < v.len() && !chosen.iter().any(|(k, _, _)| *k == v[p].0) {
+                if taken < want && !chosen.iter().any(|(k, _, _)| *k == v[p].0) {
                     chosen.push(v[p]);
-                    *cnt += 1;
+                    taken += 1;
                 }
             }
         }
     }
     let n_faults_per_idx = (base_faults.len() + 2) as u64;
-    let total_idx: u64 = chosen.iter().map(|(_, _, h)| h.n).sum();
-    // global stride so that the fault phase fits its share of the budget; operations with at most
-    // `small` assignments always get every index
-    let small: u64 = tier.pick(48, 400);
-    let stride: u64 = (total_idx * n_faults_per_idx).div_ceil(budget_runs).max(1);
+    // the index space: the operation's own assignments [a, b); the assignments of the inputs and of
+    // the exposure are swept in full for the `Assign` operations (they are the same regions for
+    // every operation) and, in thorough, at 4x the stride elsewhere
+    let is_assign = |c: &Case| matches!(&c.kind, Kind::F(_, FOp::Assign) | Kind::B(BOp::Assign(_)));
+    let small: u64 = tier.pick(40, 400);
+    let op_len = |c: &Case, h: &Hon| if is_assign(c) { h.n } else { h.op_range.1 - h.op_range.0 };
+    // no single operation takes more than `cap_per_op` indices
+    let cap_per_op: u64 = tier.pick(200, 2500);
+    let total_idx: u64 = chosen.iter().map(|(_, c, h)| op_len(c, h)).sum();
+    let total_small: u64 = chosen.iter().map(|(_, c, h)| op_len(c, h)).filter(|n| *n <= small).sum();
+    let stride: u64 = ((total_idx - total_small) * n_faults_per_idx).div_ceil(budget_runs.saturating_sub(total_small * n_faults_per_idx).max(1)).max(1);
     let mut fcases: Vec<(String, (Case, Vec<u64>, Vec<(&'static str, Fault)>))> = vec![];
     let mut swept: u64 = 0;
     for (key, c, h) in &chosen {
-        let s = if h.n <= small { 1 } else { stride };
-        // the operation's own assignments at stride s; input assignment / exposure at a coarser one
-        let (a, b) = h.op_range;
+        let s = if op_len(c, h) <= small { 1 } else { stride.max(op_len(c, h).div_ceil(cap_per_op)) };
+        let (a, b) = if is_assign(c) { (0, h.n) } else { h.op_range };
+        let phase = vcore::fnv(key) % s;
         let mut idxs: Vec<u64> = vec![];
         for i in 0..h.n {
             let inside = i >= a && i < b;
-            let st = if inside || h.n <= small { s } else { s * 3 };
-            if i % st == (c.key().len() as u64 % st) {
+            if inside {
+                if (i - a) % s == phase {
+                    idxs.push(i);
+                }
+            } else if tier.is_thorough() && i % (4 * s) == phase {
                 idxs.push(i);
             }
         }
@@ -768,104 +1111,64 @@ fn main() {
         }
     }
     cx.note(format!(
-        "fault phase: {} operations x {} operand tuple(s); {} assignment indices in total, stride {} inside the operation (x3 outside: input assignment and exposure), every index for operations with <= {} assignments; {} indices swept x {} faults",
+        "fault phase: {} operation variants x {} operand tuple(s); {} assignment indices inside the operations, stride {} (coarser for operations with more than {} assignments so that none takes more than that many indices; every index for operations with <= {} assignments; input-assignment and exposure regions: every index in the Assign operations{}); {} indices swept x {} faults",
         chosen.iter().map(|(_, c, _)| c.opkey()).collect::<std::collections::HashSet<_>>().len(),
         tier.pick(1, 2),
         total_idx,
         stride,
+        cap_per_op * stride,
         small,
+        if tier.is_thorough() { ", 4x the stride elsewhere" } else { ", not swept elsewhere" },
         swept,
         n_faults_per_idx
     ));
+    cpu_marks.push(("faults", cpu_s()));
     cx.run_cases("faults", &fcases, |(c, idxs, faults)| {
         let mut out = CaseOut::batch();
         fops::NONCANON_SEEN.with(|x| x.set(0));
         vgad::explore_faults(c, kof(c).unwrap(), idxs, faults, &mut out);
-        out.counter("noncanonical_exposures_accepted", fops::NONCANON_SEEN.with(|x| x.get()));
-        out
-    });
-
-    // ---- phase 3: "+m" re-representation of limb vectors (field operations only)
-    // Candidate limb groups are runs of nb_limbs assignment indices in arithmetic progression
-    // (gap 1: outputs of the normalisation gate; larger gaps: limbs assigned one by one with their
-    // range checks in between).
-    let mut mcases: Vec<(String, (Case, Vec<Vec<u64>>))> = vec![];
-    {
-        let mut seen_ops: HashMap<String, usize> = HashMap::new();
-        for (key, c) in &cases {
-            let Kind::F(f, op) = &c.kind else { continue };
-            let Some(h) = hon.get(key) else { continue };
-            // small operand values only: adding m limb-wise must not overflow a limb
-            let smallish = c.ins.iter().any(|v| matches!(v, V::U(x) if *x <= bu(2) && !x.is_zero()));
-            if !smallish {
-                continue;
-            }
-            let cnt = seen_ops.entry(format!("{f:?}{}", op.name())).or_default();
-            if *cnt >= tier.pick(1, 2) {
-                continue;
-            }
-            *cnt += 1;
-            let n = f.spec().nb_limbs as u64;
-            let mut groups: Vec<Vec<u64>> = vec![];
-            let max_gap = tier.pick(12u64, 40u64);
-            let lim = h.n.min(tier.pick(160, 1200));
-            for gap in 1..=max_gap {
-                for start in 0..lim {
-                    if start + gap * (n - 1) < h.n {
-                        groups.push((0..n).map(|j| start + gap * j).collect());
+        out.counter("noncanonical_exposures_accepted:faults", fops::NONCANON_SEEN.with(|x| x.get()));
+        if std::env::var("C05_DEBUG_BENIGN").is_ok() {
+            for &idx in idxs {
+                for (fname, fault) in faults {
+                    let run = vgad::run_once(c, kof(c).unwrap(), vec![(idx, fault.clone(), Mode::Propagate)], false);
+                    if run.outcome == Outcome::Sat && run.applied.first().map(|a| a.changed) == Some(true) {
+                        let a = &run.applied[0];
+                        eprintln!("BENIGN {} idx={idx} fault={fname} col={} off={} marks={:?}", c.key().chars().take(90).collect::<String>(), a.column, a.offset, marks());
                     }
                 }
             }
-            for (ci, chunk) in groups.chunks(24).enumerate() {
-                mcases.push((format!("{key}#{ci}"), (c.clone(), chunk.to_vec())));
-            }
         }
-    }
-    cx.run_cases("plus-m", &mcases, |(c, groups)| {
-        let mut out = CaseOut::batch();
-        let Kind::F(f, _) = &c.kind else { unreachable!() };
-        let spec = f.spec();
-        let k = kof(c).unwrap();
-        fops::NONCANON_SEEN.with(|x| x.set(0));
-        for g in groups {
-            let run = vgad::run_once(c, k, plus_m_plan(&spec, g), false);
-            if run.applied.len() < g.len() {
-                out.count("plus-m:not-reached", 1);
-                continue;
-            }
-            out.eval(&format!("plus-m:{}", run.outcome.name()), true);
-            if run.outcome == Outcome::Sat {
-                match c.judge(&run.ins, &run.outs) {
-                    Judgement::Holds => out.count("plus-m:accepted-benign", 1),
-                    Judgement::Wrong(w) => out.viol(Viol::new(
-                        format!("{}:unsound-under-plus-m", c.op()),
-                        format!("the modulus added limb-wise to advice assignments {g:?}: circuit still satisfied although {w}"),
-                        json!({"case": c.key(), "assignment_indices": g}),
-                    )),
-                }
-            }
-        }
-        out.counter("noncanonical_exposures_accepted", fops::NONCANON_SEEN.with(|x| x.get()));
         out
     });
 
-    // ---- phase 4: 2 deviations for small operations: all pairs x {+1, zero}^2
+    // ---- phase 5: 2 deviations inside small operations: all pairs of the operation's own assignments x {+1, zero}^2
     let f2: Vec<_> = vgad::default_faults(seed).into_iter().filter(|(n, _)| ["+1", "zero"].contains(n)).collect();
     let mut pcases: Vec<(String, (Case, Vec<(u64, u64)>))> = vec![];
     {
         let mut seen_ops: std::collections::HashSet<String> = Default::default();
-        let max_n = tier.pick(14u64, 40u64);
+        let max_n = tier.pick(10u64, 28u64);
         for (key, c) in &cases {
             let Some(h) = hon.get(key) else { continue };
-            if h.n > max_n || h.n < 2 {
+            let (a, b) = if is_assign(c) { (0, h.n) } else { h.op_range };
+            if b - a > max_n || b - a < 2 {
                 continue;
             }
-            if !seen_ops.insert(c.opkey()) {
+            // not the first tuples (shortcuts for 0/1 operands give empty operations anyway)
+            let name = if tier.is_thorough() {
+                c.opkey()
+            } else {
+                match &c.kind {
+                    Kind::F(f, op) => format!("{}.{}", f.short(), op.name()),
+                    Kind::B(op) => op.name(),
+                }
+            };
+            if !seen_ops.insert(name) {
                 continue;
             }
             let mut pairs = vec![];
-            for i in 0..h.n {
-                for j in i + 1..h.n {
+            for i in a..b {
+                for j in i + 1..b {
                     pairs.push((i, j));
                 }
             }
@@ -874,6 +1177,7 @@ fn main() {
             }
         }
     }
+    cpu_marks.push(("pairs", cpu_s()));
     cx.run_cases("pairs", &pcases, |(c, pairs)| {
         let mut out = CaseOut::batch();
         vgad::explore_pairs(c, kof(c).unwrap(), pairs, &f2, &mut out);
@@ -890,24 +1194,30 @@ fn main() {
          bits/bytes) x widths {{1,8,95,96,97,192,193{}}} x values {{0,1,2^w-1,2^(w-1),2^96-1,2^96,2^96+1,2^192-1,2^192,2^192+1,seeded}}; per case: honest run \
          (satisfiable with the reference result recomputed from the decoded exposed inputs, or unsatisfiable if out of domain), every single-position \
          edit of the exposed vector, every exposed value changed with its copy cycle; per operation: advice-assignment indices (stride {} inside the \
-         operation) x faults {{{}, +-2^LOG2_BASE}} in propagate mode; limb-wise +m on every arithmetic-progression group of NB_LIMBS assignments; all \
+         operation) x faults {{{}, +-2^LOG2_BASE}} in propagate mode; every non-empty subset of the inputs given in their second (+m) well-formed representation, injected consistently with the range checks (secp256k1 fields); all \
          pairs x {{+1,zero}}^2 for operations with few assignments. A case is one (field|biguint, operation, parameters, inputs, configuration); \
          evaluations count MockProver verdicts.",
         if tier.is_thorough() { ",1024,2048" } else { "" },
         stride,
         base_faults.iter().map(|f| f.0).collect::<Vec<_>>().join(","),
     ));
-    cx.note(format!("honest phase wall {hon_s:.1}s"));
+    cpu_marks.push(("end", cpu_s()));
+    cx.note(format!(
+        "process CPU seconds per phase: {}",
+        cpu_marks.windows(2).map(|w| format!("{}={:.0}", w[0].0, w[1].1 - w[0].1)).collect::<Vec<_>>().join(", ")
+    ));
+    let _ = hon_s;
     if tier == Tier::Quick {
         cx.note("quick: secp256k1 base field with the full operation list; secp256k1 scalar field and BLS12-381 base field with a reduced list; BigUint widths <= 193 bits");
     }
     cx.note("not covered: Curve25519 field chips (reachable only through FromScratch test circuits, not through ZkStdLib); assign_as_public_input and BigUintGadget::constrain_as_public_input (they write the instance column themselves, outside the exposure log of the engine)");
-    if only.is_none() {
+    if only.is_none() && cx.remaining_s() > 0.0 {
         let sat = cx.class_count("honest:honest:sat");
         let unsat = cx.class_count("honest:honest:unsat") + cx.class_count("honest:honest:synth-err") + cx.class_count("honest:honest:crash-unsat");
         cx.require(sat > 100 && unsat > 10, "need both satisfiable and out-of-domain cases");
         cx.require(cx.class_count("faults:fault:unsat") > 100, "faults must be rejected somewhere");
-        cx.require(cx.class_count("plus-m:plus-m:sat") > 0, "the +m re-representation must be accepted somewhere (otherwise the groups are not limb vectors)");
+        cx.require(cx.class_count("binding:instance-edit:rejected") > 100 && cx.class_count("binding:cycle-lie:rejected") > 100, "instance edits and exposed-value lies must be exercised");
+        cx.require(cx.class_count("plus-m:plus-m:sat") > 50, "non-canonical input representations must be accepted by most operations");
     }
     cx.finish()
 }
